@@ -5,6 +5,7 @@ package broker
 import (
 	"net"
 	"sync/atomic"
+	"time"
 
 	"github.com/emitter-io/emitter/internal/event"
 	"github.com/emitter-io/emitter/internal/message"
@@ -61,9 +62,16 @@ func (s *Service) VerifPresenceBarrier() {
 	ssid := message.Ssid{0xFFFFFFF1, 1}
 	pssid := message.NewSsidForPresence(ssid)
 	s.subscriptions.Subscribe(pssid, v)
-	s.presence.Notify(presence.EventTypeSubscribe, &event.Subscription{Ssid: ssid, Channel: []byte("verif/")}, nil)
-	<-v.done
-	s.subscriptions.Unsubscribe(pssid, v)
+	defer s.subscriptions.Unsubscribe(pssid, v)
+	for {
+		// (pushed again if it does not come through: the harness must not hang on a queue that loses notifications)
+		s.presence.Notify(presence.EventTypeSubscribe, &event.Subscription{Ssid: ssid, Channel: []byte("verif/")}, nil)
+		select {
+		case <-v.done:
+			return
+		case <-time.After(250 * time.Millisecond):
+		}
+	}
 }
 
 // VerifStartSurvey does what Listen does for the surveyor (subscribe it to the query channel) and makes its queries
